@@ -410,4 +410,172 @@ theorem buildTableInf_none (P : Params) (fuel : Nat) (h : buildTableInf P fuel =
     | none => exact ⟨tbl, rfl, hinv, hr⟩
     | some T' => simp [hr] at h
 
+/-! ### `programs()` on a table of `CFG.infinite` (all depth components 0: dict order) -/
+
+/-- whenever the fill succeeds the number is the number of terms -/
+theorem programsInf_count (G : CFG) (hk : (AList.keys G.rules).Nodup) (n : Nat)
+    (h : programsInf G = some n) :
+    ∃ k, bounded G k G.start = true ∧ n = count G k G.start := by
+  unfold programsInf at h
+  split at h
+  · cases h
+  · rename_i cnt hfill
+    have hinv : Programs.Inv G cnt :=
+      Programs.inv_fill G hk G.rules [] cnt (fun e he => he) (Programs.inv_nil G) hfill
+    have := hinv _ n h
+    have hs : toNT (G.start.1, G.start.2.1) = G.start := rfl
+    rw [hs] at this
+    exact this
+
+theorem head?_filter_of_head {α : Type} (p : α → Bool) (x : α) (l : List α)
+    (h : l.head? = some x) (hp : p x = true) : (l.filter p).head? = some x := by
+  cases l with
+  | nil => cases h
+  | cons y ys =>
+    simp only [List.head?_cons, Option.some.injEq] at h
+    subst h
+    simp [hp]
+
+/-- the start symbol stays the first key through `clean` -/
+theorem clean_head (start : CNT) (tbl T' : Table) (hwf : TableWF tbl)
+    (hfirst : tbl.head?.map (·.1) = some start)
+    (h : removeNonReachable start (removeNonProductive tbl) = some T') :
+    T'.head?.map (·.1) = some start := by
+  rw [removeNonReachable_eq] at h
+  by_cases hsk : AList.contains start (removeNonProductive tbl) = true
+  · simp only [hsk, if_true, Option.some.injEq] at h
+    have hsk' : start ∈ AList.keys (removeNonProductive tbl) := mem_keys_iff_contains.mpr hsk
+    have hK := (mem_keys_removeNonProductive start tbl hwf start).mp hsk'
+    have hR := (reachSet_spec start (removeNonProductive tbl)
+      (removeNonProductive_closed start tbl hwf) hsk').start
+    cases htbl : tbl with
+    | nil => rw [htbl] at hfirst; simp at hfirst
+    | cons e rest =>
+      rw [htbl] at hfirst
+      simp only [List.head?_cons, Option.map_some, Option.some.injEq] at hfirst
+      have h1 : (removeNonProductive tbl).head? = some (e.1, rowFilter (prodSet tbl) e.2) := by
+        rw [removeNonProductive_eq]
+        have : (tbl.filter (fun e => (prodSet tbl).contains e.1)).head? = some e :=
+          head?_filter_of_head _ e tbl (by rw [htbl]; rfl) (by rw [hfirst]; simpa using hK)
+        rw [List.head?_map, this]; rfl
+      rw [← h]
+      have h2 := head?_filter_of_head (fun e => (reachSet start (removeNonProductive tbl)).contains e.1)
+        _ _ h1 (by simp only [hfirst]; simpa using hR)
+      rw [h2]
+      simp [hfirst]
+  · simp [hsk] at h
+
+theorem genList_length (G : CFG) :
+    ∀ (ks : List Prog) (as : List (Ty × CFGState)), genList G ks as = true → ks.length = as.length
+  | [], [], _ => rfl
+  | [], _ :: _, h => by simp [genList] at h
+  | _ :: _, [], h => by simp [genList] at h
+  | k :: ks, (t, s) :: as, h => by
+    rw [genList] at h
+    simp only [Bool.and_eq_true] at h
+    simp [genList_length G ks as h.2]
+
+/-- **what `programs()` answers on a cleaned table whose first key is the start symbol and whose
+    depth components are all 0**: -1 exactly when some rule of the start symbol has an argument,
+    i.e. when the language contains an application — whether or not the language is infinite. -/
+theorem programsInf_none_iff (G : CFG) (hwf : TableWF G.rules)
+    (hfirst : G.rules.head?.map (·.1) = some G.start)
+    (hreach : ∀ nt ∈ AList.keys G.rules, Reach G nt)
+    (hprod : ∀ nt ∈ AList.keys G.rules, ∃ t, gen G t nt = true)
+    (hclosed : ArgsClosed G.rules) :
+    programsInf G = none ↔ ∃ f k ks, gen G (.node f (k :: ks)) G.start = true := by
+  cases hrules : G.rules with
+  | nil => rw [hrules] at hfirst; simp at hfirst
+  | cons e rest =>
+    rw [hrules] at hfirst
+    simp only [List.head?_cons, Option.map_some, Option.some.injEq] at hfirst
+    have hmem : e ∈ G.rules := by rw [hrules]; simp
+    have hlk : AList.lookup G.start G.rules = some e.2 := by
+      have := lookup_of_mem hwf.keys hmem
+      rw [hfirst] at this; exact this
+    by_cases hargs : ∀ r ∈ e.2, r.2.1 = []
+    · -- only leaf rules: the start symbol is the only non-terminal, the fill succeeds
+      have honly : ∀ nt, Reach G nt → nt = G.start := by
+        intro nt hr
+        induction hr with
+        | start => rfl
+        | step _ h1 h2 h3 ih =>
+          rw [ih, hlk] at h1
+          cases h1
+          rw [hargs _ h2] at h3
+          cases h3
+      have hrest : rest = [] := by
+        cases hrest : rest with
+        | nil => rfl
+        | cons e' rest' =>
+          exfalso
+          have he' : e' ∈ G.rules := by rw [hrules, hrest]; simp
+          have := honly e'.1 (hreach _ (mem_keys_of_mem he'))
+          have hnd := hwf.keys
+          rw [hrules, hrest] at hnd
+          simp only [AList.keys, List.map_cons, List.nodup_cons, List.mem_cons] at hnd
+          exact hnd.1 (Or.inl (by rw [hfirst, this]))
+      constructor
+      · intro hnone
+        exfalso
+        unfold programsInf at hnone
+        rw [hrules, hrest] at hnone
+        obtain ⟨nt, rs⟩ := e
+        have hall : ((rs.map (fun r => (r.2.1.map (fun a => AList.lookup a ([] : AList (Ty × CFGState) Nat))))).all
+            (fun l => l.all Option.isSome)) = true := by
+          simp only [List.all_eq_true, List.mem_map, forall_exists_index, and_imp,
+            forall_apply_eq_imp_iff₂]
+          intro r hr a ha
+          rw [hargs r hr] at ha; cases ha
+        simp only [programsFill, hall, if_true] at hnone
+        simp only at hfirst
+        rw [← hfirst, AList.lookup_insert_self] at hnone
+        cases hnone
+      · rintro ⟨f, k, ks, hg⟩
+        exfalso
+        obtain ⟨rs, args, h1, h2, h3⟩ := (gen_iff G f (k :: ks) G.start).mp hg
+        rw [hlk] at h1; cases h1
+        have := hargs _ (AList.lookup_some_mem h2)
+        simp only at this
+        rw [this] at h3
+        simp [genList] at h3
+    · -- a rule with an argument: the very first fill step fails
+      have hex : ∃ r ∈ e.2, r.2.1 ≠ [] := by
+        by_contra hcon
+        apply hargs
+        intro r hr
+        by_contra hne
+        exact hcon ⟨r, hr, hne⟩
+      obtain ⟨r, hr, hne⟩ := hex
+      constructor
+      · intro _
+        obtain ⟨ks, hks⟩ := genList_exists G r.2.1 (fun a ha =>
+          hprod _ (hclosed e hmem r hr a ha))
+        have hlen := genList_length G ks r.2.1 hks
+        cases ks with
+        | nil =>
+          exfalso
+          simp only [List.length_nil] at hlen
+          exact hne (List.length_eq_zero_iff.mp hlen.symm)
+        | cons k ks =>
+          refine ⟨r.1, k, ks, ?_⟩
+          rw [gen_iff]
+          exact ⟨e.2, r.2.1, hlk, lookup_row_of_mem (hwf.rows e hmem) hr, hks⟩
+      · intro _
+        unfold programsInf
+        rw [hrules]
+        obtain ⟨nt, rs⟩ := e
+        have hall : ((rs.map (fun r => (r.2.1.map (fun a => AList.lookup a ([] : AList (Ty × CFGState) Nat))))).all
+            (fun l => l.all Option.isSome)) = false := by
+          rw [Bool.eq_false_iff]
+          intro hall
+          simp only [List.all_eq_true, List.mem_map, forall_exists_index, and_imp,
+            forall_apply_eq_imp_iff₂] at hall
+          cases hra : r.2.1 with
+          | nil => exact hne hra
+          | cons a as =>
+            have := hall r hr a (by rw [hra]; simp)
+            simp at this
+        simp only [programsFill, hall, Bool.false_eq_true, if_false]
+
 end PS.G
